@@ -233,7 +233,7 @@ def timedEmit (rs : Option Tm) : List (Seg α) → Option α → ASig α → Opt
             timedEmit rs rest (some b.v) res1 last' (keep ++ [⟨r, b.hi, b.v⟩])
           else timedEmit rs rest (some b.v) res last (keep ++ [b])
 
-def timedUpdate (worse : α → α → Bool) (neutral : α) (begin_ end_ : Rat) (st : TimedSt α) (s : ASig α) :
+def timedUpdateCore (worse : α → α → Bool) (neutral : α) (begin_ end_ : Rat) (st : TimedSt α) (s : ASig α) :
     Except PyErr (TimedSt α × ASig α) := do
   -- `out = self.prev`, its last segment re-ended at the first new time stamp plus `end`
   let out0 : List (Seg α) :=
@@ -258,6 +258,18 @@ def timedUpdate (worse : α → α → Bool) (neutral : α) (begin_ end_ : Rat) 
         | none => [(t, v)]
         | some (t', _) => if Tm.lt t' t then res ++ [(t, v)] else res
   pure ({ segs := keep, rs := rs, started := st.started || !s.isEmpty }, res)
+
+/-- `if sample and sample[0][0] == self.residual_start: sample = sample[1:]`: the operand repeats the sample its previous
+    batch ended with (the operations return the sample at their last time stamp again). -/
+def dropRepeat (rs : Option Tm) (s : ASig α) : ASig α :=
+  match rs, s with
+  | some r, (t, _) :: rest => if t == r then rest else s
+  | _, _ => s
+
+/-- `OnceTimedOperation.update` / `HistoricallyTimedOperation.update`. -/
+def timedUpdate (worse : α → α → Bool) (neutral : α) (begin_ end_ : Rat) (st : TimedSt α) (s : ASig α) :
+    Except PyErr (TimedSt α × ASig α) :=
+  timedUpdateCore worse neutral begin_ end_ st (dropRepeat st.rs s)
 
 /-! ### the state tree of one assertion -/
 
